@@ -19,8 +19,20 @@ inline MessageRef HostileFilterArchive(Rng & r, int depth)
    // half the time a filter the library itself archived (valid), otherwise an arbitrary Message with a QUERY_FILTER_TYPE_* what-code and plausible-but-wrong fields
    if (r.oneIn(2))
    {
-      match::Filt f = match::Filt::Parse(gen::Filter(r));
-      MessageRef m = f.ToArchive(); if (m()) return m;
+      // archives produced by the library's own SaveToArchive, over every filter kind (so that the handler really evaluates a filter)
+      ConstQueryFilterRef qf;
+      static const char * strs[] = {"a", "b", "ab", "c", "I0", "*", "a*", "?", "[a-c]*", "(a|b)"};
+      switch(r.below(10))
+      {
+         case 0: qf.SetRef(new NodeNameQueryFilter((uint8) r.below(StringQueryFilter::NUM_STRING_OPERATORS), PickStr(r, strs))); break;
+         case 1: qf.SetRef(new ChildCountQueryFilter((uint8) r.below(Int32QueryFilter::NUM_NUMERIC_OPERATORS), (int32) r.below(3))); break;
+         case 2: qf.SetRef(new StringQueryFilter("s", (uint8) r.below(StringQueryFilter::NUM_STRING_OPERATORS), PickStr(r, strs))); break;
+         case 3: {ConstQueryFilterRef k1(new NodeNameQueryFilter(StringQueryFilter::OP_SIMPLE_WILDCARD_MATCH, "a*")), k2(new WhatCodeQueryFilter(0, 50)); qf.SetRef(r.oneIn(2) ? (QueryFilter *) new NandQueryFilter(k1, k2) : (QueryFilter *) new XorQueryFilter(k1, k2));} break;
+         case 4: {ConstQueryFilterRef k1(new ValueExistsQueryFilter("v")); qf.SetRef(new NorQueryFilter(k1));} break;
+         case 5: qf.SetRef(new MessageQueryFilter(ConstQueryFilterRef(new WhatCodeQueryFilter(0, 5)), ConstMessageRef(), String("m"))); break;
+         default: {match::Filt f = match::Filt::Parse(gen::Filter(r)); qf = f.ToMuscle();} break;
+      }
+      if (qf()) {MessageRef m = GetMessageFromPool(); if (qf()->SaveToArchive(*m()).IsOK()) return m;}
    }
    MessageRef m = GetMessageFromPool((uint32)(QUERY_FILTER_TYPE_WHATCODE + (int) r.below(26) - 2));
    static const char * names[] = {"fn", "val", "op", "idx", "kid", "min", "max", "ad", "dv", "mop", "msk", "tc", "nm", "spt", "ss", "sub", "cfn"};
@@ -68,7 +80,7 @@ inline void AddHostileField(Message & m, Rng & r, int depth)
    }
 }
 // existing-looking relative paths / patterns (the victims and the hostile client use the same small alphabet)
-inline std::string HPath(Rng & r) {return gen::RelPath(r);}
+inline std::string HPath(Rng & r) {if (r.oneIn(6)) {std::string p = gen::Name(r); p += "/I" + I(r.below(4)); return p;} return gen::RelPath(r);}   // sometimes a child named like a server-generated ordered-child id
 inline std::string HKey(Rng & r) {switch(r.below(6)) {case 0: return "*"; case 1: return "*/*"; case 2: return "/*/*/*"; case 3: return gen::RelPath(r); case 4: return "/*/*/" + gen::Clause(r) + "/*"; default: return gen::Clause(r);}}
 
 enum {HT_FLAT = 0, HT_SETPARAMS, HT_REMOVEPARAMS, HT_SETDATA, HT_REMOVEDATA, HT_GETDATA, HT_JETTISONRESULTS, HT_JETTISONTREES, HT_INSERTORDERED, HT_REORDER, HT_GETDATATREES,
@@ -93,7 +105,12 @@ inline MessageRef HostileMessage(uint64_t gseed, int tmpl)
       break;
       case HT_SETDATA:
          m = GetMessageFromPool(PR_COMMAND_SETDATA);
-         {const int n = 1 + (int) r.below(4); for (int i=0; i<n; i++) (void) m()->AddMessage(HPath(r).c_str(), GenMessage(r.u64(), r.oneIn(4) ? MSGCLS_SMALL : MSGCLS_TINY));}
+         {const int n = 1 + (int) r.below(4); for (int i=0; i<n; i++)
+            {
+               const std::string hp = HPath(r);
+               if (r.oneIn(2)) (void) m()->AddMessage(hp.c_str(), GenMessage(r.u64(), r.oneIn(4) ? MSGCLS_SMALL : MSGCLS_TINY));
+               else {(void) m()->AddMessage(hp.c_str(), Payload(r.below(60), I(r.below(4)))); if (r.oneIn(2)) (void) m()->AddMessage(hp.c_str(), Payload(r.below(60), r.oneIn(4) ? std::string("-") : I(r.below(4))));}   // several payloads for ONE node in one command: applied in order
+            }}
          if (r.oneIn(2)) {SetDataNodeFlags f; f.SetWord(0, r.below(32)); (void) m()->AddFlat(PR_NAME_FLAGS, f);} else if (r.oneIn(3)) (void) m()->AddInt32(PR_NAME_FLAGS, (int32) r.below(64));
       break;
       case HT_REMOVEDATA: case HT_GETDATA:
@@ -193,7 +210,8 @@ inline Plan Gen(uint64_t seed)
    for (int c=0; c<clients; c++) GenConnect(p, g, cfg, fl, c, faultFree || (c == witness), 0);
    p.push_back("step 2");
    // prelude: victims populate the tree; the hostile client subscribes to everything so that replies pile up in its output queue
-   for (int v=1; v<=victims; v++) {p.push_back("send " + I(v) + " " + SetDataCmd(g, wl)); p.push_back("send " + I(v) + " " + SetDataCmd(g, wl)); p.push_back("send " + I(v) + " sub " + I(g.opid++) + " 0 * -");}
+   for (int v=1; v<=victims; v++) {p.push_back("send " + I(v) + " " + SetDataCmd(g, wl)); p.push_back("send " + I(v) + " " + SetDataCmd(g, wl)); p.push_back("send " + I(v) + " sub " + I(g.opid++) + " 0 * " + ((v == 1) ? std::string("-") : Filter(wl)));
+                                     if (wl.oneIn(2)) p.push_back("send " + I(v) + " sub " + I(g.opid++) + " 0 */* " + (wl.oneIn(2) ? Filter(wl) : std::string("-")));}
    p.push_back("send 0 sub " + I(g.opid++) + " 0 * -"); p.push_back("send 0 sub " + I(g.opid++) + " 0 */* -");
    p.push_back("step 4");
    if (cfg.pct(80)) p.push_back("noread 0 1");
